@@ -26,7 +26,7 @@ import operator
 
 import bitarray
 import bitstring
-from bitstring import Bits
+from bitstring import Bits, ConstBitStream
 
 from rv import util
 from rv.model import bits as M
@@ -398,6 +398,7 @@ class Battery:
         mutable = self.cname in util.MUTABLE
         t = build_receiver(c)
         m = self.a
+        snaps = []
         for step in c.get('prog', []):
             opk, argspec = step[0], step[1]
             L = len(m)
@@ -456,6 +457,15 @@ class Battery:
                     m = B(t)                         # resynchronise (content after a raise is C03's business)
                 else:
                     t, m = build_receiver(c), self.a
+                # snapshots taken after earlier steps are values of their own: a later in-place operator must not reach them
+                for snap, bits_then, how, after in snaps:
+                    if B(snap) != bits_then:
+                        self.bad(opk, 'inplace', iclass, f'earlier-{how}-snapshot-changed', f'taken after {after}: {bits_then[:60]} -> {B(snap)[:60]}')
+                snaps[:] = [sn for sn in snaps if B(sn[0]) == sn[1]][-3:]
+                how = ('Bits', 'ConstBitStream', 'copy()', 'copy.copy')[len(m) % 4]
+                sn = call(lambda: Bits(t) if how == 'Bits' else ConstBitStream(t) if how == 'ConstBitStream' else t.copy() if how == 'copy()' else __import__('copy').copy(t))
+                if sn[0] == 'ok' and sn[1] is not t:
+                    snaps.append((sn[1], m, how, opk))
             else:
                 # Bits / ConstBitStream have no in-place forms: Python falls back to the binary operator
                 form = 'inplace-fallback'
